@@ -30,7 +30,7 @@ static void *g_node_p;             /* the slot object returned by getVariant */
 static unsigned long g_p_ind;      /* pretty: indentation units written since the last other token */
 static unsigned long g_p_n0;       /* pretty: nesting_ at entry */
 static unsigned long g_p_lookups;  /* pretty: getVariant calls so far */
-static unsigned long g_p_bytes;    /* pretty: bytes written by the visitor itself */
+static unsigned long g_p_bytes;    /* pretty: bytes produced so far = count at entry + own tokens + children */
 #define VIS_SUCC(k) ((k) + 1 < g_vis_len ? (unsigned int)((k) + 1) : 0xffffffffu) /* id after slot k; ids are 0..len-1 in list order */
 #define VIS_SEPS_AT_HEAD (g_vis_calls < g_vis_len ? g_vis_calls : (g_vis_len ? g_vis_len - 1 : 0))
 
@@ -53,7 +53,7 @@ static unsigned long g_out_len;
 static unsigned long g_ret_sum; /* sum of the returned counts */
 static unsigned long g_room;    /* capacity of the destination */
 
-#if defined(U_FMT) || defined(U_FLOAT) || defined(U_PRETTY)
+#if defined(U_FMT) || defined(U_FLOAT) || defined(U_TEXT)
 unsigned long LogWriter__write__uchar(struct LogWriter *self, unsigned char c) {
   (void)self;
   if (g_out_len < LOG_CAP) g_out[g_out_len] = c;
@@ -358,7 +358,51 @@ void h_boolean(void) {
   }
   CHECK(COUNT_OK(&tf), COUNT_NAME);
 }
+/* 2b. [B] writeString composed with the real writeChar, strings of at most 3 bytes: the whole text and the count.
+ * (unbounded version: unit jsonser_sw with writeChar as a monitor) */
+static unsigned long spec_expand(unsigned char c, unsigned char *out) { /* C17 clause + NUL as \u0000 */
+  char e = spec_escape_letter(c);
+  if (e) { out[0] = '\\'; out[1] = (unsigned char)e; return 2; }
+  if (c == 0) { out[0] = '\\'; out[1] = 'u'; out[2] = '0'; out[3] = '0'; out[4] = '0'; out[5] = '0'; return 6; }
+  out[0] = c; return 1;
+}
+static unsigned long string_b(_Bool sized) {
+  struct TextFormatter_LogWriter tf;
+  fmt_init(&tf);
+  unsigned long n = in_u8();
+  __CPROVER_assume(n <= 3);
+  char src[4];
+  src[0] = in_char(); src[1] = in_char(); src[2] = in_char(); src[3] = in_char();
+  unsigned char want[2 + 3 * 6];
+  unsigned long k = 0;
+  want[k++] = '"';
+  if (sized) {
+    TextFormatter_LogWriter__writeString__char_p_ulong(&tf, src, n);
+    if (n > 0) k += spec_expand((unsigned char)src[0], want + k);
+    if (n > 1) k += spec_expand((unsigned char)src[1], want + k);
+    if (n > 2) k += spec_expand((unsigned char)src[2], want + k);
+  } else {
+    __CPROVER_assume(src[n] == 0);
+    TextFormatter_LogWriter__writeString__char_p(&tf, src);
+    if (src[0]) { k += spec_expand((unsigned char)src[0], want + k);
+      if (src[1]) { k += spec_expand((unsigned char)src[1], want + k);
+        if (src[2]) k += spec_expand((unsigned char)src[2], want + k); } }
+  }
+  want[k++] = '"';
+#ifdef CANARY_STRB
+  CHECK(g_out_len == k + (k == 7), "string: quote, every byte through writeChar, quote - length");
+#else
+  CHECK(g_out_len == k, "string: quote, every byte through writeChar, quote - length");
+#endif
+  unsigned long j = in_u8();
+  if (j < k && j < g_out_len) CHECK(g_out[j] == want[j], "string: quote, every byte through writeChar, quote - bytes");
+  CHECK(COUNT_OK(&tf), COUNT_NAME);
+  return k;
+}
+void h_string_b_sized(void) { unsigned long k = string_b(1); COVER(k == 2); COVER(k == 20); COVER(k == 5); }
+void h_string_b_nul(void) { unsigned long k = string_b(0); COVER(k == 2); COVER(k == 8); COVER(k == 5); }
 #endif /* U_FMT */
+
 
 /* ===================================================================================================================
  * unit jsonser_float: TextFormatter<LogWriter>::writeFloat with its callees under contract
@@ -971,7 +1015,7 @@ unsigned long LogWriter__write__uchar_p_ulong(struct LogWriter *self, unsigned c
   CHECK(n >= 1 && n <= 3, "pretty: tokens of 1..3 bytes");
   int t = (n >= 1 && n <= 3) ? tok(s, n) : T_BAD;
   _Bool all_done = g_vis_calls == g_vis_len && g_vis_seps == g_vis_len;
-  g_p_bytes += n;
+  g_p_bytes += n; /* == value returned below: bytes produced so far, updated in lockstep with the counting decorator */
   switch (t) {
     case T_EMPTY:
       CHECK(!g_vis_open && g_vis_len == 0, "pretty: an empty container is [] / {}");
@@ -994,13 +1038,8 @@ unsigned long LogWriter__write__uchar_p_ulong(struct LogWriter *self, unsigned c
       g_vis_seps++;
       break;
     case T_SEPNL:
-#ifdef CANARY_PRETTY
-      CHECK(g_vis_open && !g_vis_close && g_vis_seps + 1 == g_vis_calls && g_vis_calls <= g_vis_len && g_p_ind == 0 && (!g_vis_object || !(g_vis_calls & 1)),
-            "pretty: ',' CR LF between two elements / members");
-#else
       CHECK(g_vis_open && !g_vis_close && g_vis_seps + 1 == g_vis_calls && g_vis_calls < g_vis_len && g_p_ind == 0 && (!g_vis_object || !(g_vis_calls & 1)),
             "pretty: ',' CR LF between two elements / members");
-#endif
       g_vis_seps++;
       break;
     case T_NL:
@@ -1010,7 +1049,11 @@ unsigned long LogWriter__write__uchar_p_ulong(struct LogWriter *self, unsigned c
       break;
     case T_CLOSE:
       CHECK(g_vis_open && !g_vis_close && all_done && g_vis_len > 0, "pretty: closing bracket after the last line");
+#ifdef CANARY_PRETTY
+      CHECK(g_p_ind == g_p_n0 + (g_p_n0 == 3), "pretty: the closing bracket is indented by the enclosing nesting");
+#else
       CHECK(g_p_ind == g_p_n0, "pretty: the closing bracket is indented by the enclosing nesting");
+#endif
       g_vis_close = 1;
       break;
     default:
@@ -1036,7 +1079,7 @@ unsigned long VariantData__accept_PrettyJsonSerializer_LogWriter__PrettyJsonSeri
   g_p_ind = 0;
   g_vis_calls++;
   unsigned long nbytes = nondet_child_bytes();
-  g_vis_child += nbytes;
+  g_p_bytes += nbytes;
   visit->_b_JsonSerializer_LogWriter.formatter_.writer_.count_ += nbytes;
   return visit->_b_JsonSerializer_LogWriter.formatter_.writer_.count_;
 }
@@ -1056,13 +1099,13 @@ static void pretty_init(struct PrettyJsonSerializer_LogWriter *ser, _Bool object
   ser->nesting_ = (unsigned char)g_p_n0;
   g_vis_len = in_size();
   __CPROVER_assume(g_vis_len <= 0x7ffffffful);
-  g_vis_calls = 0; g_vis_seps = 0; g_vis_child = 0; g_vis_open = 0; g_vis_close = 0; g_p_ind = 0; g_p_lookups = 0; g_p_bytes = 0;
+  g_vis_calls = 0; g_vis_seps = 0; g_vis_child = 0; g_vis_open = 0; g_vis_close = 0; g_p_ind = 0; g_p_lookups = 0; g_p_bytes = g_vis_c0;
 }
 static void check_pretty(struct PrettyJsonSerializer_LogWriter *ser, unsigned long r) {
   CHECK(g_vis_open && g_vis_close, "container: opened and closed");
   CHECK(g_vis_calls == g_vis_len, "container: every slot of the list is serialized exactly once");
   CHECK(ser->nesting_ == g_p_n0, "pretty: nesting restored");
-  CHECK(r == g_vis_c0 + g_p_bytes + g_vis_child && r == PCOUNT(ser), "returned count == number of bytes produced so far");
+  CHECK(r == g_p_bytes && r == PCOUNT(ser), "returned count == number of bytes produced so far (own tokens + children)");
 }
 void h_pretty_array(void) {
   struct PrettyJsonSerializer_LogWriter ser;
@@ -1088,3 +1131,82 @@ void h_pretty_object(void) {
   check_pretty(&ser, r);
 }
 #endif /* U_PRETTY_V */
+
+/* ===================================================================================================================
+ * unit jsonser_text [B]: the two serializers on the same list of at most 4 slots, nesting 0..2, texts compared byte by byte:
+ * "the two differing only in insignificant whitespace".  Children write one letter ('a' + slot id).
+ * (unbounded statements: units jsonser_visit and jsonser_pretty)
+ * =================================================================================================================== */
+#ifdef U_TEXT
+static struct VariantData g_nodes[4];
+static unsigned long g_tlen;
+struct VariantData *ResourceManager__getVariant(struct ResourceManager *self, unsigned int id) {
+  (void)self;
+  if (id == NULL_SLOT) return 0;
+  CHECK(id < g_tlen, "only slots of the list are looked up");
+  return &g_nodes[id < 4 ? id : 0];
+}
+unsigned long VariantData__accept_JsonSerializer_LogWriter__JsonSerializer_LogWriter_r_ResourceManager_p(struct VariantData *self, struct JsonSerializer_LogWriter *visit, struct ResourceManager *resources) {
+  (void)resources;
+  JsonSerializer_LogWriter__write__char(visit, (char)('a' + (self - g_nodes)));
+  return JsonSerializer_LogWriter__bytesWritten(visit);
+}
+unsigned long VariantData__accept_PrettyJsonSerializer_LogWriter__PrettyJsonSerializer_LogWriter_r_ResourceManager_p(struct VariantData *self, struct PrettyJsonSerializer_LogWriter *visit, struct ResourceManager *resources) {
+  (void)resources;
+  JsonSerializer_LogWriter__write__char(&visit->_b_JsonSerializer_LogWriter, (char)('a' + (self - g_nodes)));
+  return JsonSerializer_LogWriter__bytesWritten(&visit->_b_JsonSerializer_LogWriter);
+}
+static void text_both(_Bool object) {
+  struct LogWriter w;
+  memset(&w, 0, sizeof w);
+  g_tlen = in_u8();
+  __CPROVER_assume(g_tlen <= (object ? 4 : 3) && (!object || !(g_tlen & 1)));
+  unsigned nesting = in_u8();
+  __CPROVER_assume(nesting <= 1);
+  memset(g_nodes, 0, sizeof g_nodes);
+  g_nodes[0].next_ = 1 < g_tlen ? 1u : NULL_SLOT; g_nodes[1].next_ = 2 < g_tlen ? 2u : NULL_SLOT;
+  g_nodes[2].next_ = 3 < g_tlen ? 3u : NULL_SLOT; g_nodes[3].next_ = NULL_SLOT;
+  struct ArrayData arr; struct ObjectData obj;
+  memset(&arr, 0, sizeof arr); memset(&obj, 0, sizeof obj);
+  arr._b_CollectionData.head_ = obj._b_CollectionData.head_ = g_tlen ? 0u : NULL_SLOT;
+  arr._b_CollectionData.tail_ = obj._b_CollectionData.tail_ = g_tlen ? (unsigned int)(g_tlen - 1) : NULL_SLOT;
+  /* compact */
+  struct JsonSerializer_LogWriter cs;
+  memset(&cs, 0, sizeof cs);
+  g_out_len = 0; g_ret_sum = 0; g_room = ~0ul;
+  JsonSerializer_LogWriter__ctor__LogWriter_ResourceManager_p(&cs, w, 0);
+  unsigned long rc = object ? JsonSerializer_LogWriter__visit__ObjectData_r(&cs, &obj) : JsonSerializer_LogWriter__visit__ArrayData_r(&cs, &arr);
+  unsigned char compact[16];
+  unsigned long clen = g_out_len;
+  CHECK(rc == clen, "compact: returned count == length of the text");
+  CHECK(clen == (g_tlen ? 2 * g_tlen + 1 : 2), "compact: brackets, one letter per slot, one separator between slots");
+  for (unsigned i = 0; i < 16; i++) compact[i] = g_out[i];
+  /* expected compact text, written out */
+  unsigned char want[16]; unsigned long k = 0;
+  want[k++] = object ? '{' : '[';
+  for (unsigned i = 0; i < 4; i++) if (i < g_tlen) { if (i) want[k++] = (object && (i & 1)) ? ':' : ','; want[k++] = (unsigned char)('a' + i); }
+  want[k++] = object ? '}' : ']';
+  unsigned long j = in_u8();
+#ifdef CANARY_TEXT
+  if (j < k && j < clen) CHECK(compact[j] == (j == 3 ? want[j] + 1 : want[j]), "compact: the text is [a,b,..] / {a:b,c:d}");
+#else
+  if (j < k && j < clen) CHECK(compact[j] == want[j], "compact: the text is [a,b,..] / {a:b,c:d}");
+#endif
+  /* pretty */
+  struct PrettyJsonSerializer_LogWriter ps;
+  memset(&ps, 0, sizeof ps);
+  g_out_len = 0; g_ret_sum = 0;
+  PrettyJsonSerializer_LogWriter__ctor__LogWriter_ResourceManager_p(&ps, w, 0);
+  ps.nesting_ = (unsigned char)nesting;
+  unsigned long rp = object ? PrettyJsonSerializer_LogWriter__visit__ObjectData_r(&ps, &obj) : PrettyJsonSerializer_LogWriter__visit__ArrayData_r(&ps, &arr);
+  CHECK(rp == g_out_len && g_out_len <= LOG_CAP, "pretty: returned count == length of the text");
+  CHECK(g_out_len <= 32, "pretty: at most 32 bytes for these lists");
+  unsigned char stripped[32]; unsigned long slen = 0;
+  for (unsigned long i = 0; i < 32; i++)
+    if (i < g_out_len && g_out[i] != '\r' && g_out[i] != '\n' && g_out[i] != ' ') stripped[slen++] = g_out[i];
+  CHECK(slen == clen, "pretty and compact differ only in insignificant whitespace (CR, LF, space): length");
+  if (j < clen && j < slen) CHECK(stripped[j] == compact[j], "pretty and compact differ only in insignificant whitespace (CR, LF, space): bytes");
+}
+void h_text_array(void) { text_both(0); COVER(g_tlen == 0); COVER(g_tlen == 3); COVER(g_out_len == 29); }
+void h_text_object(void) { text_both(1); COVER(g_tlen == 0); COVER(g_tlen == 4); COVER(g_out_len == 27); }
+#endif /* U_TEXT */
